@@ -91,6 +91,23 @@ func gid() int64 {
 	return v
 }
 
+// blockedInSelect reports whether goroutine g is parked in a select statement
+// (scheduler state, not timing).
+func blockedInSelect(g int64) bool {
+	if g <= 0 {
+		return false
+	}
+	buf := make([]byte, 1<<20)
+	n := runtime.Stack(buf, true)
+	head := []byte(fmt.Sprintf("goroutine %d [", g))
+	i := bytes.Index(buf[:n], head)
+	if i < 0 {
+		return false
+	}
+	rest := buf[i+len(head) : n]
+	return bytes.HasPrefix(rest, []byte("select"))
+}
+
 // ---------------------------------------------------------------- instrumented context
 
 // PCtx is the context handed to Recv. In forced mode the processing goroutine
@@ -177,6 +194,9 @@ func (c *PCtx) Err() error {
 		c.mu.Lock()
 		e := c.Context.Err()
 		c.errCalls++
+		if c.bGid == 0 {
+			c.bGid = gid()
+		}
 		if c.onErr != nil {
 			c.onErr(e == nil)
 		}
@@ -483,8 +503,34 @@ func ReplayBcast(t *testing.T, rep *Report, tg BcastTarget, cases []V) {
 					if !race {
 						wait = raceWait / 5
 					}
+					if race {
+						// whether the goroutine takes one more message before it leaves is not
+						// decided here (and only shortens a queue nobody reads any more)
+						qlenUnknown[h] = true
+					}
 				}
-				at, ok := p.waitArrival(since, wait)
+				gone := func() bool {
+					for _, x := range rig.HandlerCtxs() {
+						if x == context.Context(p) {
+							return false
+						}
+					}
+					return true
+				}
+				var at string
+				var ok bool
+				if a == "ExitOnDone" && tg.Lifecycle == "inline" {
+					// the exit is observable: the goroutine removes its handler on the way out
+					Eventually(long, func() bool {
+						at, ok = p.waitArrival(since, 0)
+						return ok || gone()
+					})
+					if !ok && !gone() {
+						t.Fatalf("%s: goroutine of %s neither took a message nor left within %v", tg.Name, h, long)
+					}
+				} else {
+					at, ok = p.waitArrival(since, wait)
+				}
 				if a == "Dequeue" {
 					if !ok {
 						if race { // the real select took ctx.Done()
@@ -508,7 +554,14 @@ func ReplayBcast(t *testing.T, rep *Report, tg BcastTarget, cases []V) {
 						}
 						since = p.arrivals()
 						p.release()
-						at, ok = p.waitArrival(since, wait)
+						if tg.Lifecycle == "inline" {
+							Eventually(long, func() bool {
+								at, ok = p.waitArrival(since, 0)
+								return ok || gone()
+							})
+						} else {
+							at, ok = p.waitArrival(since, wait)
+						}
 					}
 					if ok {
 						if at == "run" || at == "errpost" {
@@ -520,17 +573,8 @@ func ReplayBcast(t *testing.T, rep *Report, tg BcastTarget, cases []V) {
 						break stepLoop
 					}
 					exited[h] = true
-					if tg.Lifecycle == "inline" {
-						if !Eventually(long, func() bool {
-							for _, x := range rig.HandlerCtxs() {
-								if x == context.Context(p) {
-									return false
-								}
-							}
-							return true
-						}) {
-							t.Fatalf("%s: handler %s was not removed within %v after its goroutine saw the cancelled context", tg.Name, h, long)
-						}
+					if tg.Lifecycle == "inline" && !Eventually(long, gone) {
+						t.Fatalf("%s: handler %s was not removed within %v after its goroutine saw the cancelled context", tg.Name, h, long)
 					}
 				}
 			case "CheckCtx", "FilterInvoke", "Return":
@@ -649,6 +693,7 @@ func calibrateChk(t *testing.T, tg BcastTarget) bool {
 }
 
 type bcastRun struct {
+	lost []string // live handlers that consumed the closing message without being handed it
 	chk  bool
 	t    *testing.T
 	tg   BcastTarget
@@ -704,6 +749,11 @@ func (r *bcastRun) register(h string) {
 	r.rec.log(map[string]interface{}{"event": "RegisterCall", "h": h})
 	r.rig.Register(p, func(m BcastMsg) {
 		r.rec.log(map[string]interface{}{"event": "InvokeStart", "h": h, "m": mrec(m.Sender, m.Seqno)})
+		p.mu.Lock()
+		if p.bGid == 0 {
+			p.bGid = gid()
+		}
+		p.mu.Unlock()
 		r.mu.Lock()
 		r.inv[h] = append(r.inv[h], m)
 		blk := r.block
@@ -801,14 +851,47 @@ func (r *bcastRun) fence(live []string) {
 	n := r.send("f", true, "fence")
 	for _, h := range live {
 		h := h
-		if !Eventually(60*time.Second, func() bool { return r.sawInvoke(h, "f", n) }) {
+		r.mu.Lock()
+		p := r.ctxs[h]
+		r.mu.Unlock()
+		lost := false
+		nextProbe := time.Now().Add(20 * time.Millisecond)
+		ok := Eventually(60*time.Second, func() bool {
+			if r.sawInvoke(h, "f", n) {
+				return true
+			}
+			if time.Now().Before(nextProbe) {
+				return false
+			}
+			nextProbe = time.Now().Add(20 * time.Millisecond)
+			// The closing message was put into the queue before send returned. If the queue is
+			// empty and the processing goroutine is parked in its select, everything that was in
+			// the queue has been processed: the closing message was consumed without reaching
+			// the handler (no timing involved: this is the scheduler's state of the goroutine).
+			p.mu.Lock()
+			g := p.bGid
+			p.mu.Unlock()
+			if g != 0 && r.rig.QueueLen(p) == 0 && blockedInSelect(g) && !r.sawInvoke(h, "f", n) {
+				lost = true
+				return true
+			}
+			return false
+		})
+		if !ok {
 			r.t.Fatalf("%s: live handler %s was never handed the closing message (cannot decide the run)", r.tg.Name, h)
+		}
+		if lost {
+			r.lost = append(r.lost, h)
 		}
 	}
 }
 
 func (r *bcastRun) finish(tr *Tracer, rep *Report, kind string) {
 	r.checkRoom(kind)
+	for _, h := range r.lost {
+		rep.Diverge("lost:"+r.tg.Name, fmt.Sprintf("%s run on %s: a message published while handler %s was registered and live never reached it: its queue is empty and its goroutine is back in its select, yet the handler was not called (handed so far: %v)", kind, r.tg.Name, h, r.invokedBy(h)),
+			map[string]interface{}{"handler": h, "run": kind}, "closing message handed to the handler", "consumed without a call")
+	}
 	for _, pr := range r.rig.Problems() {
 		rep.Diverge("seqno-reuse:"+r.tg.Name, pr, map[string]interface{}{"run": kind}, nil, nil)
 	}
